@@ -242,18 +242,25 @@ def convert_cone(key, val):
         return SurfaceCollection([(cone, 1)])
 
     pos = -(u_x * p_x + u_y * p_y + u_z * p_z)
+    # the positive side of an axis-aligned T4 plane is towards the positive
+    # axis, which is opposite to the cone axis if the latter was flipped by a
+    # transformation
+    axis_sign = 1
     if u_x == 0 and u_y == 0:
         type_surface = T4S.PLANEZ
         param = [-pos / u_z]
+        axis_sign = 1 if u_z > 0 else -1
     elif u_y == 0 and u_z == 0:
         type_surface = T4S.PLANEX
         param = [-pos / u_x]
+        axis_sign = 1 if u_x > 0 else -1
     elif u_z == 0 and u_x == 0:
         type_surface = T4S.PLANEY
         param = [-pos / u_y]
+        axis_sign = 1 if u_y > 0 else -1
     else:
         type_surface = T4S.PLANE
         param = [u_x, u_y, u_z, pos]
     plane = SurfaceT4(type_surface, param,
                       [f'aux plane for cone {key}'])
-    return SurfaceCollection([(cone, 1), (plane, -int(nappe))])
+    return SurfaceCollection([(cone, 1), (plane, -int(nappe) * axis_sign)])
